@@ -1,5 +1,359 @@
+/-
+C05 — helper lemmas: the continuation-passing code shape (`run*`) against the direct rules
+(`spec*`), by mutual structural recursion over the nested route tree.
+-/
 import CaddyModel.C05.Spec
 
 namespace CaddyModel.C05
+
+def Out.isErr : Out → Bool
+  | .err _ _ _ => true
+  | .done _ _ => false
+
+/-- "this rest-of-the-chain never returns a Go error" -/
+def NoErrK (k : K) : Prop := ∀ r t, (k r t).isErr = false
+
+theorem noErr_emptyK : NoErrK emptyK := fun _ _ => rfl
+theorem noErr_errorEmptyK : NoErrK errorEmptyK := fun _ _ => rfl
+theorem noErr_termK (e : Req) : NoErrK (termK e) := by
+  unfold termK; split
+  · exact noErr_errorEmptyK
+  · exact noErr_emptyK
+
+/-! ### matchers that contain no error matcher never report an error -/
+
+mutual
+theorem evalMatcher_noerr : ∀ (m : Matcher) (r : Req), mCanErr m = false → ∀ st, evalMatcher m r ≠ .err st
+  | .atom f vals, r, _, st => by simp [evalMatcher]
+  | .err k s, r, h, st => by simp [mCanErr] at h
+  | .not sets, r, h, st => by
+    rw [evalMatcher]; exact evalNot_noerr sets r (by simpa [mCanErr] using h) st
+theorem evalNot_noerr : ∀ (sets : List (List Matcher)) (r : Req), setsCanErr sets = false → ∀ st, evalNot sets r ≠ .err st
+  | [], r, _, st => by simp [evalNot]
+  | s :: ss, r, h, st => by
+    simp only [setsCanErr, Bool.or_eq_false_iff] at h
+    rw [evalNot]
+    have h1 := evalSet_noerr s r h.1
+    have h2 := evalNot_noerr ss r h.2 st
+    cases hs : evalSet s r with
+    | err st' => exact absurd hs (h1 st')
+    | ok b => cases b <;> simp [h2]
+theorem evalSet_noerr : ∀ (s : List Matcher) (r : Req), setCanErr s = false → ∀ st, evalSet s r ≠ .err st
+  | [], r, _, st => by simp [evalSet]
+  | m :: ms, r, h, st => by
+    simp only [setCanErr, Bool.or_eq_false_iff] at h
+    rw [evalSet]
+    have h1 := evalMatcher_noerr m r h.1
+    have h2 := evalSet_noerr ms r h.2 st
+    cases hm : evalMatcher m r with
+    | err st' => exact absurd hm (h1 st')
+    | ok b => cases b <;> simp [h2]
+end
+
+theorem evalAny_noerr : ∀ (sets : List (List Matcher)) (r : Req), setsCanErr sets = false → ∀ st, evalAny sets r ≠ .err st
+  | [], r, _, st => by simp [evalAny]
+  | s :: ss, r, h, st => by
+    simp only [setsCanErr, Bool.or_eq_false_iff] at h
+    rw [evalAny]
+    have h1 := evalSet_noerr s r h.1
+    have h2 := evalAny_noerr ss r h.2 st
+    cases hs : evalSet s r with
+    | err st' => exact absurd hs (h1 st')
+    | ok b => cases b <;> simp [h2]
+
+theorem anyMatch_noerr (sets : List (List Matcher)) (r : Req) (h : setsCanErr sets = false) (st : Nat) :
+    anyMatch sets r ≠ .err st := by
+  unfold anyMatch; split
+  · simp
+  · exact evalAny_noerr sets r h st
+
+/-! ### a chain that contains nothing that can fail never returns an error -/
+
+mutual
+theorem runHandlers_noerr : ∀ (hs : List Handler) (k : K), hsCanFail hs = false → NoErrK k → NoErrK (runHandlers hs k)
+  | [], k, _, hk => by simpa [runHandlers] using hk
+  | h :: hs, k, hf, hk => by
+    simp only [hsCanFail, Bool.or_eq_false_iff] at hf
+    rw [runHandlers]
+    exact runHandler_noerr h _ hf.1 (runHandlers_noerr hs k hf.2 hk)
+theorem runHandler_noerr : ∀ (h : Handler) (k : K), hCanFail h = false → NoErrK k → NoErrK (runHandler h k)
+  | .pass id, k, _, hk => fun r t => by simp [runHandler, hk _ _]
+  | .respond id st, k, _, _ => fun r t => by simp [runHandler, Out.isErr]
+  | .rewrite id p, k, _, hk => fun r t => by simp [runHandler, hk _ _]
+  | .fail id st, k, hf, _ => by simp [hCanFail] at hf
+  | .sub rs hasErrs errs, k, hf, hk => fun r t => by
+    simp only [runHandler]
+    cases hasErrs with
+    | false =>
+      simp only [hCanFail, Bool.false_eq_true, if_false] at hf
+      have := runRoutes_noerr rs k hf hk r t
+      cases hr : runRoutes rs k r t with
+      | done t' s => simp [Out.isErr]
+      | err t' st r' => simp [hr, Out.isErr] at this
+    | true =>
+      simp only [hCanFail, if_true] at hf
+      cases hr : runRoutes rs k r t with
+      | done t' s => simp [Out.isErr]
+      | err t' st r' => simpa using runRoutes_noerr errs k hf hk _ _
+theorem runRoutes_noerr : ∀ (rs : List Route) (k : K), rsCanFail rs = false → NoErrK k → NoErrK (runRoutes rs k)
+  | [], k, _, hk => by simpa [runRoutes] using hk
+  | rt :: rs, k, hf, hk => by
+    simp only [rsCanFail, Bool.or_eq_false_iff] at hf
+    rw [runRoutes]
+    exact runRoute_noerr rt _ hf.1 (runRoutes_noerr rs k hf.2 hk)
+theorem runRoute_noerr : ∀ (rt : Route) (k : K), rCanFail rt = false → NoErrK k → NoErrK (runRoute rt k)
+  | .mk g sets hs term, k, hf, hk => fun r t => by
+    simp only [rCanFail, Bool.or_eq_false_iff] at hf
+    simp only [runRoute]
+    have hm := anyMatch_noerr sets r hf.1
+    cases ha : anyMatch sets r with
+    | err st => exact absurd ha (hm st)
+    | ok b =>
+      cases b with
+      | false => simpa using hk r t
+      | true =>
+        simp only
+        split
+        · exact hk r t
+        · apply runHandlers_noerr hs _ hf.2
+          split
+          · exact noErr_termK r
+          · exact hk
+end
+
+/-! ### the refinement: code shape = documented rules, when nothing can fail behind a
+subroute that has error routes (`ks` is the static "rest of the chain cannot fail") -/
+
+mutual
+theorem hs_ok : ∀ (hs : List Handler) (ks : Bool) (k : K) (r : Req) (t : Trace),
+    hsOk hs ks = true → (ks = true → NoErrK k) →
+    runHandlers hs k r t = (specHandlers hs r t).bind k
+  | [], ks, k, r, t, _, _ => by simp [runHandlers, specHandlers, Res.bind]
+  | h :: hs, ks, k, r, t, ho, hk => by
+    simp only [hsOk, Bool.and_eq_true] at ho
+    have hk' : (ks && !hsCanFail hs) = true → NoErrK (runHandlers hs k) := by
+      intro hh
+      simp only [Bool.and_eq_true, Bool.not_eq_true'] at hh
+      exact runHandlers_noerr hs k hh.2 (hk hh.1)
+    rw [runHandlers, h_ok h _ (runHandlers hs k) r t ho.1 hk', specHandlers]
+    cases hh : specHandler h r t with
+    | cont r' t' => simp [Res.bind, hs_ok hs ks k r' t' ho.2 hk]
+    | stop o => simp [Res.bind]
+theorem h_ok : ∀ (h : Handler) (ks : Bool) (k : K) (r : Req) (t : Trace),
+    hOk h ks = true → (ks = true → NoErrK k) →
+    runHandler h k r t = (specHandler h r t).bind k
+  | .pass id, ks, k, r, t, _, _ => by simp [runHandler, specHandler, Res.bind]
+  | .respond id st, ks, k, r, t, _, _ => by simp [runHandler, specHandler, Res.bind]
+  | .rewrite id p, ks, k, r, t, _, _ => by simp [runHandler, specHandler, Res.bind]
+  | .fail id st, ks, k, r, t, _, _ => by simp [runHandler, specHandler, Res.bind]
+  | .sub rs hasErrs errs, ks, k, r, t, ho, hk => by
+    simp only [runHandler, specHandler]
+    cases hasErrs with
+    | false =>
+      simp only [hOk, Bool.false_eq_true, if_false] at ho
+      rw [rs_ok rs ks k r t ho hk]
+      cases hs : specRoutes rs r t with
+      | cont r' t' =>
+        simp only [Res.bind]
+        cases hkk : k r' t' <;> simp
+      | stop o => cases o <;> simp [Res.bind]
+    | true =>
+      simp only [hOk, if_true, Bool.and_eq_true] at ho
+      obtain ⟨⟨hks, hrs⟩, hes⟩ := ho
+      rw [rs_ok rs ks k r t hrs hk]
+      cases hs : specRoutes rs r t with
+      | cont r' t' =>
+        simp only [Res.bind]
+        have hne := hk hks r' t'
+        cases hkk : k r' t' with
+        | done t'' s => rfl
+        | err t'' st r'' => simp [hkk, Out.isErr] at hne
+      | stop o =>
+        cases o with
+        | done t' s => simp [Res.bind]
+        | err t' st r' => simp [Res.bind, rs_ok errs ks k _ t' hes hk]
+theorem rs_ok : ∀ (rs : List Route) (ks : Bool) (k : K) (r : Req) (t : Trace),
+    rsOk rs ks = true → (ks = true → NoErrK k) →
+    runRoutes rs k r t = (specRoutes rs r t).bind k
+  | [], ks, k, r, t, _, _ => by simp [runRoutes, specRoutes, Res.bind]
+  | rt :: rs, ks, k, r, t, ho, hk => by
+    simp only [rsOk, Bool.and_eq_true] at ho
+    have hk' : (ks && !rsCanFail rs) = true → NoErrK (runRoutes rs k) := by
+      intro hh
+      simp only [Bool.and_eq_true, Bool.not_eq_true'] at hh
+      exact runRoutes_noerr rs k hh.2 (hk hh.1)
+    rw [runRoutes, r_ok rt _ (runRoutes rs k) r t ho.1 hk', specRoutes]
+    cases hh : specRoute rt r t with
+    | cont r' t' => simp [Res.bind, rs_ok rs ks k r' t' ho.2 hk]
+    | stop o => simp [Res.bind]
+theorem r_ok : ∀ (rt : Route) (ks : Bool) (k : K) (r : Req) (t : Trace),
+    rOk rt ks = true → (ks = true → NoErrK k) →
+    runRoute rt k r t = (specRoute rt r t).bind k
+  | .mk g sets hs term, ks, k, r, t, ho, hk => by
+    simp only [rOk] at ho
+    simp only [runRoute, specRoute]
+    cases ha : anyMatch sets r with
+    | err st => simp [Res.bind]
+    | ok b =>
+      cases b with
+      | false => simp [Res.bind]
+      | true =>
+        simp only
+        by_cases hg : groupDone g r = true
+        · simp [hg, Res.bind]
+        · simp only [hg]
+          have hk2 : (term || ks) = true → NoErrK (if term then termK r else k) := by
+            intro hh
+            cases term with
+            | true => simpa using noErr_termK r
+            | false => simpa using hk (by simpa using hh)
+          rw [hs_ok hs (term || ks) _ (markGroup g r) t ho hk2]
+          cases specHandlers hs (markGroup g r) t <;> cases term <;> simp [Res.bind]
+end
+
+
+/-! ### matcher sets as propositions -/
+
+theorem evalSet_true_iff : ∀ (s : List Matcher) (r : Req),
+    evalSet s r = .ok true ↔ ∀ m ∈ s, evalMatcher m r = .ok true
+  | [], r => by simp [evalSet]
+  | m :: ms, r => by
+    rw [evalSet]
+    have ih := evalSet_true_iff ms r
+    cases hm : evalMatcher m r with
+    | err st => simp [hm]
+    | ok b => cases b <;> simp [hm, ih]
+
+theorem evalAny_ok : ∀ (sets : List (List Matcher)) (r : Req) (b : Bool), evalAny sets r = .ok b →
+    (b = true ↔ ∃ s ∈ sets, evalSet s r = .ok true)
+  | [], r, b, h => by simp [evalAny] at h; simp [← h]
+  | s :: ss, r, b, h => by
+    rw [evalAny] at h
+    cases hs : evalSet s r with
+    | err st => simp [hs] at h
+    | ok c =>
+      cases c with
+      | true => simp [hs] at h; simp [← h, hs]
+      | false =>
+        simp only [hs] at h
+        have ih := evalAny_ok ss r b h
+        simp [ih, hs]
+
+theorem evalNot_ok : ∀ (sets : List (List Matcher)) (r : Req) (b : Bool), evalNot sets r = .ok b →
+    (b = true ↔ ¬ ∃ s ∈ sets, evalSet s r = .ok true)
+  | [], r, b, h => by simp [evalNot] at h; simp [← h]
+  | s :: ss, r, b, h => by
+    rw [evalNot] at h
+    cases hs : evalSet s r with
+    | err st => simp [hs] at h
+    | ok c =>
+      cases c with
+      | true => simp [hs] at h; simp [← h, hs]
+      | false =>
+        simp only [hs] at h
+        have ih := evalNot_ok ss r b h
+        simp [ih, hs]
+
+/-- without errors a matcher set is a plain conjunction -/
+theorem evalSet_eq_all : ∀ (s : List Matcher) (r : Req), (∀ m ∈ s, ∀ st, evalMatcher m r ≠ .err st) →
+    evalSet s r = .ok (s.all fun m => evalMatcher m r == .ok true)
+  | [], r, _ => by simp [evalSet]
+  | m :: ms, r, h => by
+    rw [evalSet]
+    have ih := evalSet_eq_all ms r (fun m' hm' => h m' (List.mem_cons_of_mem _ hm'))
+    cases hm : evalMatcher m r with
+    | err st => exact absurd hm (h m (List.mem_cons_self ..) st)
+    | ok b => cases b <;> simp [hm, ih]
+
+/-! ### the group set only grows along a chain -/
+
+/-- every group in `gs` is still marked in the request state a run hands on (or fails with) -/
+def Res.KeepsGroups (x : Res) (gs : List Nat) : Prop :=
+  match x with
+  | .cont r' _ => ∀ g ∈ gs, g ∈ r'.groups
+  | .stop (.err _ _ r') => ∀ g ∈ gs, g ∈ r'.groups
+  | .stop (.done _ _) => True
+
+theorem Res.KeepsGroups.mono {x : Res} {gs gs' : List Nat} (h : x.KeepsGroups gs')
+    (hs : ∀ g ∈ gs, g ∈ gs') : x.KeepsGroups gs := by
+  cases x with
+  | cont r t => exact fun g hg => h g (hs g hg)
+  | stop o =>
+    cases o with
+    | done t s => trivial
+    | err t st r => exact fun g hg => h g (hs g hg)
+
+theorem termK_done (e r : Req) (t : Trace) : ∃ s, termK e r t = .done t s := by
+  unfold termK; split
+  · exact ⟨_, rfl⟩
+  · exact ⟨_, rfl⟩
+
+theorem markGroup_groups (g : Nat) (r : Req) : ∀ x ∈ r.groups, x ∈ (markGroup g r).groups := by
+  intro x hx; unfold markGroup; split
+  · exact List.mem_cons_of_mem _ hx
+  · exact hx
+
+mutual
+theorem specHandlers_keeps : ∀ (hs : List Handler) (r : Req) (t : Trace), (specHandlers hs r t).KeepsGroups r.groups
+  | [], r, t => by simp [specHandlers, Res.KeepsGroups]
+  | h :: hs, r, t => by
+    rw [specHandlers]
+    have h1 := specHandler_keeps h r t
+    cases hh : specHandler h r t with
+    | cont r' t' =>
+      rw [hh] at h1
+      exact (specHandlers_keeps hs r' t').mono h1
+    | stop o => rw [hh] at h1; exact h1
+theorem specHandler_keeps : ∀ (h : Handler) (r : Req) (t : Trace), (specHandler h r t).KeepsGroups r.groups
+  | .pass id, r, t => by simp [specHandler, Res.KeepsGroups]
+  | .respond id st, r, t => by simp [specHandler, Res.KeepsGroups]
+  | .rewrite id p, r, t => by simp [specHandler, Res.KeepsGroups]
+  | .fail id st, r, t => by simp [specHandler, Res.KeepsGroups]
+  | .sub rs hasErrs errs, r, t => by
+    rw [specHandler]
+    have h1 := specRoutes_keeps rs r t
+    cases hs : specRoutes rs r t with
+    | cont r' t' => rw [hs] at h1; exact h1
+    | stop o =>
+      rw [hs] at h1
+      cases o with
+      | done t' s => trivial
+      | err t' st r' =>
+        cases hasErrs with
+        | false => exact h1
+        | true => exact (specRoutes_keeps errs { r' with ctxErr := some st } t').mono h1
+theorem specRoutes_keeps : ∀ (rs : List Route) (r : Req) (t : Trace), (specRoutes rs r t).KeepsGroups r.groups
+  | [], r, t => by simp [specRoutes, Res.KeepsGroups]
+  | rt :: rs, r, t => by
+    rw [specRoutes]
+    have h1 := specRoute_keeps rt r t
+    cases hh : specRoute rt r t with
+    | cont r' t' =>
+      rw [hh] at h1
+      exact (specRoutes_keeps rs r' t').mono h1
+    | stop o => rw [hh] at h1; exact h1
+theorem specRoute_keeps : ∀ (rt : Route) (r : Req) (t : Trace), (specRoute rt r t).KeepsGroups r.groups
+  | .mk g sets hs term, r, t => by
+    rw [specRoute]
+    cases anyMatch sets r with
+    | err st => simp [Res.KeepsGroups]
+    | ok b =>
+      cases b with
+      | false => simp [Res.KeepsGroups]
+      | true =>
+        simp only
+        split
+        · simp [Res.KeepsGroups]
+        · have h1 := (specHandlers_keeps hs (markGroup g r) t).mono (markGroup_groups g r)
+          cases hh : specHandlers hs (markGroup g r) t with
+          | cont r' t' =>
+            rw [hh] at h1
+            cases term with
+            | true =>
+              obtain ⟨s, hs⟩ := termK_done r r' t'
+              simp [hs, Res.KeepsGroups]
+            | false => simpa using h1
+          | stop o => rw [hh] at h1; exact h1
+end
 
 end CaddyModel.C05
